@@ -564,7 +564,8 @@ DynamicBitset& DynamicBitset::operator >>=( size_t pos) noexcept( true)
    {
       mData[ idx] = mData[ idx + pos];
    } // end for
-   for (size_t idx = mData.size() - pos; idx < mData.size(); ++idx)
+   for (size_t idx = (pos < mData.size()) ? mData.size() - pos : 0;
+        idx < mData.size(); ++idx)
    {
       mData[ idx] = false;
    } // end for
